@@ -30,9 +30,9 @@ ASSUMPTIONS = ['fresh-object replay = the code itself without history (sequentia
                'search_results() before any search is not generated (no documented answer)']
 EXHAUSTIVE = {'quick': False, 'thorough': False}
 HASH_SEEDS = {'quick': [0], 'thorough': [0, 1, 2]}
-MINIMA = {'quick': {'returned_design_edits': 50, 'sibling_searches': 80, 'ops_compared': 1500, 'set:bigrams': 100, 'distinct_nontrivial': 150, 'repeat_results': 100,
+MINIMA = {'quick': {'returned_set_edits': 40, 'prior_sibling_cases': 30, 'returned_design_edits': 50, 'sibling_searches': 80, 'ops_compared': 1500, 'set:bigrams': 100, 'distinct_nontrivial': 150, 'repeat_results': 100,
                     'param_snapshots': 1500},
-          'thorough': {'returned_design_edits': 700, 'sibling_searches': 1000, 'ops_compared': 20000, 'set:bigrams': 150, 'distinct_nontrivial': 2000, 'repeat_results': 1500,
+          'thorough': {'returned_set_edits': 500, 'prior_sibling_cases': 400, 'returned_design_edits': 700, 'sibling_searches': 1000, 'ops_compared': 20000, 'set:bigrams': 150, 'distinct_nontrivial': 2000, 'repeat_results': 1500,
                        'param_snapshots': 20000}}
 N = {'quick': 320, 'thorough': 4000}
 CASE_TIMEOUT = {'quick': 300, 'thorough': 900}
@@ -71,9 +71,19 @@ def norm_designs(ds):
   return out
 
 
-def do_op(mm, op, arg):
+EDITS = [0]
+
+
+def do_op(mm, op, arg, edit=False):
   if op in ('geos_over_budget', 'geos_too_large', 'geos_must_include', 'geos_within_constraints'):
-    return sorted(getattr(mm, op))
+    raw = getattr(mm, op)
+    out = sorted(raw)
+    if edit and isinstance(raw, set):
+      # the caller uses the set it was handed as scratch space
+      raw.clear()
+      raw.add('__edited_by_caller__')
+      EDITS[0] += 1
+    return out
   if op == 'geo_assignments':
     return norm_assign(mm.geo_assignments)
   if op == 'treatment_group_size_range':
@@ -155,8 +165,27 @@ def run_case(spec):
     case['params']['n_designs'] = r.choice([2, 3, 5, 50])
     for k in ('budget_range', 'treatment_share_range', 'n_geos_max'):
       case['params'].pop(k, None)
+  if not ties and spec['idx'] % 5 == 1 and case['params']['iroas'] > 0:
+    # another search object with a different flevel was built on the data object first, and the budget bound sits
+    # between the single-geo budgets implied by the two flevels
+    kw = case['params']
+    fa = kw.get('flevel', 0.9)
+    fb = r.choice([v for v in (0.8, 0.9, 0.95, 0.99) if v != fa])
+    t_a = sl.Truth(case)
+    t_b = sl.Truth(dict(case, params=dict(kw, flevel=fb)))
+    gid = r.choice(t_a.ids)
+    ia, ib = t_a.opt_impact([gid]), t_b.opt_impact([gid])
+    if ia > 0 and ib > 0 and abs(ia - ib) > 1e-6 * ia:
+      kw['budget_range'] = (0.0, (ia + r.choice([0.3, 0.5, 0.7]) * (ib - ia)) / kw['iroas'])
+      case['prior_sibling'] = {'flevel': fb}
+      counters_pre = 1
+  if not ties and spec['idx'] % 5 == 3 and G >= 3:
+    case['params']['n_geos_max'] = r.randrange(2, G)         # binding truncation of the admitted set
   desc = sl.describe(case, with_frame=False)
   ops = gen_history(r)
+  if case['params'].get('n_geos_max') is not None and spec['idx'] % 2 == 1:
+    # the caller re-uses the admitted set it was handed as scratch space at some point before the end of the history
+    ops.insert(r.randrange(0, len(ops)), ('geos_within_constraints', 0))
   counters = collections.Counter()
   violations = []
   bigrams = set()
@@ -199,7 +228,7 @@ def run_case(spec):
     if seen_search:
       searched_then_more = True
     before = dataclasses.asdict(par)
-    live = util.call(do_op, mm, op, arg)
+    live = util.call(do_op, mm, op, arg, arg % 3 == 0)
     after = dataclasses.asdict(par)
     counters['param_snapshots'] += 1
     log.append(op)
@@ -226,7 +255,7 @@ def run_case(spec):
         break
       counters['ops_compared'] += 1
       continue
-    fresh_built = util.call(sl.build, case)
+    fresh_built = util.call(sl.build, case, None, None, True)
     if not fresh_built.ok:
       break
     fresh = util.call(do_op, fresh_built.value[2], op, arg)
@@ -283,6 +312,9 @@ def run_case(spec):
             violations.append({'clause': 'process-wide-state', 'mech': 'process-wide-state',
                                'detail': '%s on a fresh object changed after the caller zeroed the arrays inside designs returned to it: %s vs %s' % (
                                    which_, _short(base.value if base.ok else base.describe()), _short(after.value if after.ok else after.describe()))})
+  counters['returned_set_edits'] += EDITS[0]
+  EDITS[0] = 0
+  counters['prior_sibling_cases'] += bool(case.get('prior_sibling'))
   for a in probes.ALARMS[:3]:
     # P-HEAP reads the container twice at every retrieval and compares the two reads item by item
     violations.append({'clause': 'repeat-results', 'mech': 'heap-' + str(a.get('clause')),
